@@ -984,13 +984,23 @@ func (c *FnCtx) cancellable(fr *Frame) {
 			continue
 		}
 		lastWasTag = false
+		alsoCh := ""
+		if i := strings.Index(nm, "+"); i > 0 {
+			// `ch+other`: the select that operates on ch also has a receive case on `other`
+			alsoCh = nm[i+1:]
+			nm = nm[:i]
+		}
 		wantCtx := ""
 		if i := strings.Index(nm, ":"); i > 0 {
 			// `ch:ctxname`: the Done case must be on that context
 			wantCtx = nm[i+1:]
 			nm = nm[:i]
 		}
-		r := &OblResult{Name: c.eng.shortFuncName(fr.fn) + "/cancellable:" + nm, Class: "cancellable", Func: c.eng.funcKey(fr.fn), Kind: "prove",
+		oblName := nm
+		if alsoCh != "" {
+			oblName = nm + "+" + alsoCh
+		}
+		r := &OblResult{Name: c.eng.shortFuncName(fr.fn) + "/cancellable:" + oblName, Class: "cancellable", Func: c.eng.funcKey(fr.fn), Kind: "prove",
 			Clause: "every send / receive on " + nm + " is a select case next to a <-ctx.Done() case", Status: "discharged", Solve: SolveResult{Status: "unsat", Winner: "ssa-scan"}}
 		var bad []string
 		seen := 0
@@ -1015,10 +1025,13 @@ func (c *FnCtx) cancellable(fr *Frame) {
 						bad = append(bad, "plain receive at "+where(in))
 					}
 				case *ssa.Select:
-					has, done := false, false
+					has, done, also := false, false, alsoCh == ""
 					for _, s := range x.States {
 						if valueName(s.Chan) == nm {
 							has = true
+						}
+						if alsoCh != "" && s.Dir == types.RecvOnly && valueName(s.Chan) == alsoCh {
+							also = true
 						}
 						if s.Dir == types.RecvOnly && strings.HasPrefix(valueName(s.Chan), "done(") && (wantCtx == "" || valueName(s.Chan) == "done("+wantCtx+")") {
 							done = true
@@ -1027,6 +1040,9 @@ func (c *FnCtx) cancellable(fr *Frame) {
 					if wantCtx == "default" && !x.Blocking {
 						// `ch:default`: the select has a default case, the operation never blocks
 						done = true
+					}
+					if has && !also {
+						bad = append(bad, "select without a receive case on "+alsoCh+" at "+where(in))
 					}
 					if has {
 						seen++
